@@ -67,7 +67,7 @@ pub struct Sim {
 }
 
 fn rel(base: &Path, p: &Path) -> String {
-    p.strip_prefix(base).unwrap_or(p).display().to_string()
+    crate::tree::rel_name(p.strip_prefix(base).unwrap_or(p))
 }
 
 impl Sim {
